@@ -67,6 +67,8 @@ pub fn gen_case(rng: &mut Rng, kind: Kind) -> Vec<String> {
 /// `Solver::with_activity_params`: 1/4 of the cases run with non-default parameters of the decision heuristic
 /// (C02 quantifies over them); all values are exactly representable decimals for f32 parsing on both sides.
 pub fn pick_activity(rng: &mut Rng) -> Option<(f32, f32)> {
+    // (the C++ interface has no `with_activity_params`: the C17 differential generates its cases with default parameters)
+    if std::env::var_os("VERIF_NO_ACTIVITY").is_some() { return None; }
     if !rng.chance(1, 4) { return None; }
     Some(*rng.pick(&[(0.5, 0.9), (2.0, 0.5), (1.0, 1.0), (0.25, 0.75), (3.0, 0.99), (0.0, 0.95), (1.0, 0.0), (10.0, 0.125)]))
 }
